@@ -250,7 +250,7 @@ def table():
         Ifc("TOCPackages.items", ("C20",), {"self": s}, result=call(at(at(s, "_pkginfos"), "items")), clause=""),
         Ifc("TOCPackages.__len__", ("C20",), {"self": s}, result=bi("len", at(s, "_pkginfos")), clause=""),
         Ifc("TOCPackages.__iter__", ("C20",), {"self": s}, result=bi("iter", at(s, "_pkginfos")), clause=""),
-        Ifc("MetadorMeta.keys", ("C07", "C15"), {"self": s}, result=call(at(at(s, "_objs"), "keys")), clause="keys() (schema names only) is allowed even for a skel_only node: no guard, no object is read"),
+        Ifc("MetadorMeta.keys", ("C07",), {"self": s}, result=call(at(at(s, "_objs"), "keys")), clause="keys() lists the names of the attached objects (the table of this node), no object is read"),  # (C15 has its own contract of keys/values/items: metaread.ViewSpec)
         Ifc("MetadorMeta.__len__", ("C07",), {"self": s}, result=bi("len", call(at(s, "keys"))), clause=""),
         Ifc("MetadorMeta.__iter__", ("C07",), {"self": s}, result=bi("iter", call(at(s, "keys"))), clause=""),
     ]
